@@ -103,8 +103,37 @@ type dbSession struct {
 	viol   func(sig, f string, a ...any)
 	closed bool
 	extra  [][]byte // further keys to probe (content of a pre-seeded legacy table)
+	// slices handed out by GetBytes earlier in the session, with a private copy of what they held at that time
+	kept []keptRead
 	// walRecordsAtClose: after a clean Close some WAL file still held records (D13 matcher)
 	walRecordsAtClose bool
+}
+
+type keptRead struct {
+	key        string
+	slice, was []byte
+	at         int
+}
+
+// retain reads every key with GetBytes and keeps the returned slices: what a call has returned belongs to the caller,
+// no later operation on the database may change it.
+func (s *dbSession) retain(at int) {
+	for _, k := range dbKeys {
+		if v, err := s.db.GetBytes(k); err == nil && len(v) > 0 {
+			s.kept = append(s.kept, keptRead{string(k), v, append([]byte{}, v...), at})
+		}
+	}
+}
+
+func (s *dbSession) checkRetained(i int, op dbOp) {
+	for _, kr := range s.kept {
+		s.r.Evals++
+		if !bytes.Equal(kr.slice, kr.was) {
+			s.viol("", "after op %d %v: the slice that GetBytes(%s) returned before op %d has changed: it held %s, now %s", i, op, kr.key, kr.at, valName(kr.was), valName(kr.slice))
+			s.kept = nil
+			return
+		}
+	}
 }
 
 func quietLogs() { log.SetOutput(io.Discard) }
